@@ -282,6 +282,42 @@ def runner_main(argv) -> int:
             out["stage"] = "ok"
     except BaseException as ex:  # noqa
         out["error"] = type(ex).__name__ + ": " + str(ex)[:300].replace("\n", " ")
+    # ---- purity of generation: further generations IN THIS INTERPRETER over the same class objects must reproduce the
+    # first one exactly (byte-identical file, identical containers), whatever was generated before in the process
+    if "text_sha" in out and variant == "a":
+        reps = []
+
+        def again(tag, cls_list):
+            from krrood.class_diagrams.class_diagram import ClassDiagram
+            from krrood.ormatic.ormatic import ORMatic
+            rec = {"step": tag}
+            try:
+                o2 = ORMatic(ClassDiagram(list(cls_list)))
+                o2.make_all_tables()
+                g2 = inspect_ormatic(o2)
+                p2 = os.path.join(d_dir, f"{d['module']}_iface_{variant}_{tag}.py")
+                with open(p2, "w") as f:
+                    o2.to_sqlalchemy_file(f)
+                rec["text_sha"] = hashlib.sha1(open(p2).read().encode()).hexdigest()
+                rec["gen"] = g2
+            except BaseException as ex:  # noqa
+                rec["error"] = type(ex).__name__ + ": " + str(ex)[:200].replace("\n", " ")
+            return rec
+        plan = d.get("repeat", ["same"])
+        try:
+            for k, step in enumerate(plan):
+                if step == "same":          # fresh ClassDiagram + fresh ORMatic, same classes, same order
+                    r2 = again(f"r{k}", classes)
+                    same = r2.get("text_sha") == out["text_sha"] and r2.get("gen") == out["gen"]
+                    reps.append({"step": step, "same": same, "text_sha": r2.get("text_sha"), "error": r2.get("error"),
+                                 "gen": None if same else r2.get("gen")})
+                elif step == "other":       # a DIFFERENT model in between: other classes first, these classes reversed
+                    om = importlib.import_module("c06_other")
+                    r2 = again(f"o{k}", [om.Qq, om.Pp] + list(reversed(classes)))
+                    reps.append({"step": step, "same": True, "text_sha": r2.get("text_sha"), "error": None})
+        except BaseException as ex:  # noqa
+            reps.append({"step": "?", "same": False, "error": type(ex).__name__ + ": " + str(ex)[:200]})
+        out["repeat"] = reps
     print("RESULT " + json.dumps(out))
     return 0
 
@@ -556,12 +592,32 @@ def gen_model(rng, idx: int, allow_k: bool) -> dict:
     sh = list(names)
     rng.shuffle(sh)
     d["order_shuffled"] = sh
+    # generations repeated in the same interpreter: always one more; for some models a third one, also after another model
+    d["repeat"] = rng.choice([["same"], ["same"], ["same", "same"], ["other", "same"], ["same", "other", "same"]])
     return d
 
 
 # ------------------------------------------------------------------------------------------------
 # running cases
 # ------------------------------------------------------------------------------------------------
+OTHER_SOURCE = """from __future__ import annotations
+from dataclasses import dataclass, field
+from typing import List, Optional
+
+
+@dataclass(eq=False, kw_only=True)
+class Pp:
+    n: int = 0
+    q: Optional[Qq] = None
+
+
+@dataclass(eq=False, kw_only=True)
+class Qq:
+    s: str = ''
+    ps: List[Pp] = field(default_factory=list)
+"""
+
+
 def prepare(d) -> Path:
     cd = case_dir(d)
     if cd.exists():
@@ -571,6 +627,7 @@ def prepare(d) -> Path:
     (cd / f"{d['module']}_e.py").write_text(es)
     (cd / f"{d['module']}.py").write_text(cs)
     (cd / "descr.json").write_text(json.dumps(d))
+    (cd / "c06_other.py").write_text(OTHER_SOURCE)
     return cd
 
 
@@ -731,6 +788,35 @@ def judge_determinism(rep, rec) -> bool:
     return ok
 
 
+def judge_repeat(rep, rec) -> bool:
+    """generation is a function of the classes: every further generation in the same interpreter reproduces the first"""
+    d, r = rec["d"], rec["res"]
+    reps = r.get("repeat")
+    if reps is None:
+        return True
+    rep.extra["same_process_regenerations"] = rep.extra.get("same_process_regenerations", 0) + len([x for x in reps if x["step"] == "same"])
+    bad = [x for x in reps if not x.get("same")]
+    if not bad:
+        return True
+    if len(rep.violations) >= MAX_REPLAYS:
+        rep.extra["further_failing_cases"] = rep.extra.get("further_failing_cases", 0) + 1
+        return False
+    b = bad[0]
+    diff = None
+    if b.get("gen") and "gen" in r:
+        first = {t["cls"]: t for t in r["gen"]["tables"]}
+        diff = [{"class": t["cls"], "first": {k: first[t["cls"]][k] for k in ("builtin", "custom", "fks", "rels", "mapper")},
+                 "again": {k: t[k] for k in ("builtin", "custom", "fks", "rels", "mapper")}}
+                for t in b["gen"]["tables"] if t["cls"] in first and t != first[t["cls"]]][:3]
+    rep.violation({"kind": "counterexample", "case": d, "python": snippet(d), "repeat_plan": d.get("repeat", ["same"]),
+                   "steps": [{k: v for k, v in x.items() if k != "gen"} for x in reps], "first_text_sha": r.get("text_sha"),
+                   "tables_that_differ": diff,
+                   "explanation": "generation is not a function of the model: a further generation in the SAME interpreter (fresh ClassDiagram "
+                                  "and fresh ORMatic over the same class objects, step '%s' of the plan) does not reproduce the first one "
+                                  "(file text and/or ORMatic containers differ; error=%s)" % (b.get("step"), b.get("error"))})
+    return False
+
+
 def load_corpus() -> List[Tuple[str, dict]]:
     from . import core
     out = []
@@ -752,11 +838,16 @@ def run(tier: str, seed: int, replay=None) -> int:
         "harness/c06.py: source renderer, regex reading of ColumnConstructor strings, mapper inspection and its canonical encoding",
         "SQLAlchemy / SQLite accept a layer that is statically well-formed: compared on every case, not proved (level: partial)",
     ]
+    rep.extra["purity"] = ("C06_generation_is_a_function: in the model `gen` is a Gallina function (same class model and order => same schema, no hidden "
+                           "state). The implementation is compared against exactly this: in every per-model worker the layer is generated again "
+                           "(for some models twice more, and after generating a different model in between) in the SAME interpreter from a fresh "
+                           "ClassDiagram and a fresh ORMatic over the same class objects; every such generation must give a byte-identical file and "
+                           "identical ORMatic containers. Across processes: other PYTHONHASHSEED (byte-identical) and shuffled hand-over order (same tables).")
     rep.assume = ["class and field names are ASCII identifiers; every class is a dataclass with at most one base, bases belong to the model",
                   "the emission order handed to the model is the one observed from rustworkx.topological_sort; the model checks it is parents-first"]
     rep.rule = ("random class models (1-5 classes, 0-6 fields each over scalars/Optional/enums/datetime/JSON lists/references/Optional references/"
                 "collections/private fields/redeclared inherited fields, inheritance depth 0-3, self and mutual references, several collections of one "
-                "target, shuffled hand-over order); one fresh subprocess per model; distinct = distinct model text; non-trivial = at least one table "
+                "target, shuffled hand-over order); one fresh subprocess per model, in which the layer is generated 2-4 times (plans: same / same,same / other,same / same,other,same); distinct = distinct model text; non-trivial = at least one table "
                 "with a relationship or inheritance")
     ok_spec, log = core.coq_make(["Base/Sx.vo", "Orm/SchemaSpec.vo"])
     rep.oblige("build:spec", ok_spec, "" if ok_spec else core.first_error(log))
@@ -773,6 +864,7 @@ def run(tier: str, seed: int, replay=None) -> int:
         recs = evaluate(rep, [replay["case"]], model_ok, "replay", 1.0, rng.fork(9))
         lab = judge(rep, recs[0], model_ok, findings_seen)
         judge_determinism(rep, recs[0])
+        judge_repeat(rep, recs[0])
         rep.count(case_key(recs[0]["d"]), True)
         rep.note(f"replay: {lab}")
         for f in findings:
@@ -800,6 +892,7 @@ def run(tier: str, seed: int, replay=None) -> int:
                 if lab.startswith("known:"):
                     rep.violation({"kind": "counterexample", "case": d, "python": snippet(d),
                                    "explanation": f"corpus case {name} is expected to pass but fails ({lab})"})
+            judge_repeat(rep, rec)
             rep.count(case_key(d), True)
     # 2. generated models
     n = {"quick": 56, "thorough": 640}[tier]
@@ -816,6 +909,8 @@ def run(tier: str, seed: int, replay=None) -> int:
             d = rec["d"]
             lab = judge(rep, rec, model_ok, findings_seen)
             judge_determinism(rep, rec)
+            if not judge_repeat(rep, rec):
+                lab = "not-reproducible"
             labels[lab] = labels.get(lab, 0) + 1
             st = shape_stats(d)
             for kk, vv in st.items():
